@@ -47,6 +47,11 @@ def tol_graded(ratio):
     return min(1e-5, max(1e-10, 2e-13 * ratio))
 
 
+def hash_str(t):
+    import hashlib
+    return hashlib.sha256(t.encode()).hexdigest()
+
+
 def same_arrays(a, b):
     a, b = np.asarray(a), np.asarray(b)
     return a.shape == b.shape and a.dtype == b.dtype and bool(np.array_equal(a, b, equal_nan=True))
@@ -571,9 +576,20 @@ def e2e_case(ctx, case):
         cs = dict(case, method=method)
         data = Y.copy()
         ss = SingleSetup(data, fs=fs)
-        kw = dict(br=br, ordmax=ordmax, ref_ind=ref)
+        forms = case.get("forms") or {}
+        if forms.get("fs_int") and float(fs).is_integer():
+            ss = SingleSetup(data, fs=int(fs))  # sampling rate given as an int
+        kw = dict(br=(float(br) if forms.get("br_float") else br), ordmax=(float(ordmax) if forms.get("br_float") else ordmax), ref_ind=ref)
         if hc is not None:
-            kw["hc"] = hc
+            hcv = dict(hc)
+            if forms.get("int_values"):  # limits given as ints where they are integer valued
+                hcv = {k_: (int(v_) if isinstance(v_, float) and float(v_).is_integer() else v_) for k_, v_ in hcv.items()}
+            if forms.get("key_order"):  # keys in a non-documented order
+                keys = sorted(hcv, key=lambda k_: (hash_str(k_ + str(forms["key_order"]))))
+                hcv = {k_: hcv[k_] for k_ in keys}
+            kw["hc"] = hcv
+        if forms.get("sc"):
+            kw["sc"] = dict(err_phi=0.03, err_xi=0.05, err_fn=0.01)  # the defaults, keys reversed
         alg = cls(name="a", method=method, **kw) if cls is SSIcov else cls(name="a", **kw)
         ss.add_algorithms(alg)
         ss.run_by_name("a")
@@ -655,6 +671,57 @@ def e2e_case(ctx, case):
                 ctx.fail("oracle", "%s: mpe modified the list of requested frequencies" % method, cs, key=key + ":mpe-input-modified")
                 break
         else:
+            # ---- requests that are only APPROXIMATELY right (read off a stabilisation diagram, inside rtol): the returned Fn must be the
+            #      frequency of the identified pole, i.e. the TRUE one, not the requested value; Xi and shape those of that mode
+            gap = np.array([min([abs(fn[j] - fn[k_]) for k_ in range(m) if k_ != j] or [np.inf]) for j in range(m)])
+            failed = False
+            for rq in case.get("req") or []:
+                rt = rq.get("rtol")
+                rte = 0.05 if rt is None else rt
+                if "values" in rq:
+                    vals = list(rq["values"])
+                elif rq.get("kind") == "int":
+                    vals = [int(round(f)) for f in fn]
+                    if not all(v >= 1 and abs(v - f) <= 0.8 * rte * v and abs(v - f) <= 0.4 * g for v, f, g in zip(vals, fn, gap)):
+                        continue  # no integer-valued request inside rtol and nearer to its own mode than to the others
+                else:
+                    pj = np.minimum(np.array(rq["u"]) * rte, 0.4 * gap / fn)
+                    vals = [float(f * (1 + sg * p_)) for f, sg, p_ in zip(fn, rq["sgn"], pj)]
+                form = rq.get("form", "list")
+                arg = {"list": list, "tuple": tuple, "ndarray": np.array}[form](vals)
+                arg0 = np.array(vals)
+                kwargs = {} if rt is None else dict(rtol=rt)
+                try:
+                    ss.mpe("a", sel_freq=arg, order=col, **kwargs)
+                except Exception as e:  # a container form the API does not accept is not a property matter
+                    if form != "list":
+                        ctx.note("mpe(sel_freq=<%s>) raises %s: form not accepted by the API, skipped" % (form, type(e).__name__))
+                        continue
+                    raise
+                Fn, Xi, Phi = np.asarray(res.Fn), np.asarray(res.Xi), np.asarray(res.Phi)
+                ctx.hist("e2e.approximate_request", "%s/%s/%s" % (rq.get("kind", "values" if "values" in rq else "perturbed"), form, "default rtol" if rt is None else "rtol=%g" % rt))
+                desc = "mpe(sel_freq=%s as %s, order=%d, %s)" % ([round(float(v), 6) for v in vals], form, col, "default rtol" if rt is None else "rtol=%g" % rt)
+                if Fn.shape != (m,) or Xi.shape != (m,) or Phi.shape != (l, m):
+                    ctx.fail("oracle", "%s: %s returned Fn%s Xi%s Phi%s for %d requested modes inside rtol" % (method, desc, Fn.shape, Xi.shape, Phi.shape, m),
+                             cs, key=key + ":mpe-approx-shape")
+                    failed = True
+                    break
+                efv = np.abs(Fn - fn) / fn
+                exv = np.abs(Xi - xi)
+                emv = np.array([1 - max(mac(Phi[:, j], phi[:, j]), mac(Phi[:, j], np.conj(phi[:, j]))) for j in range(m)])
+                if not (efv.max() <= tol and exv.max() <= tol and emv.max() <= tol):
+                    j = int(np.argmax(np.maximum(np.maximum(efv, exv), emv)))
+                    ctx.fail("oracle", "%s: %s: request %.9g: expected the identified pole fn=%.9g Hz (xi=%.6g), got fn=%.9g xi=%.6g, 1-MAC %.3g; the result must be "
+                             "the pole's frequency at 1e-6 relative, not the requested value" % (method, desc, float(vals[j]), fn[j], xi[j], Fn[j], Xi[j], emv[j]),
+                             cs, key=key + ":mpe-approx")
+                    failed = True
+                    break
+                if not same_arrays(np.array(list(arg)), arg0):
+                    ctx.fail("oracle", "%s: mpe modified the requested frequencies" % method, cs, key=key + ":mpe-input-modified")
+                    failed = True
+                    break
+            if failed:
+                continue
             # ---- general clause: a second run of the same algorithm object gives identical results, and so does a second extraction
             first = [np.array(x, copy=True) for x in (res.Fn_poles, res.Xi_poles, res.Phi_poles, res.Lambds, res.H)]
             firstAC = [np.array(x, copy=True) for x in list(res.A) + list(res.C)]
@@ -700,8 +767,20 @@ def gen_e2e_case(rng, mmax, k):
     # hard criteria: default ones for real shapes in every other case (true damping <= 8 % < xi_max, MPC 1, MPD 0), else loosened so that
     # complex shapes and the requested order are not filtered (the property is about the poles, not about the filters)
     hc = None if (not cplx and k % 4 == 0) else dict(conj=bool(k % 3), xi_max=0.5, mpc_lim=0.0, mpd_lim=10.0, cov_max=10.0)
+    # approximate requests (two thirds of the cases): true frequency times 1 +- (0.2..0.8) rtol, default rtol and a looser one, in the
+    # container forms a user may pass; plus integer-valued requests where the rounded frequencies are inside rtol
+    req = []
+    if k % 3 != 2:
+        forms_ = ["list", "tuple", "ndarray"]
+        for rt in (None, 0.1):
+            req.append(dict(rtol=rt, u=rng.uniform(0.2, 0.8, size=m).tolist(), sgn=[int(x) for x in rng.choice([-1, 1], size=m)],
+                            form=forms_[int(rng.integers(0, 3))]))
+        req.append(dict(kind="int", rtol=(None if k % 2 else 0.1), form=forms_[int(rng.integers(0, 3))]))
+    # run parameters in the forms a user may give them: hc/sc keys in another order, ints where floats are documented and vice versa
+    forms = dict(key_order=int(rng.integers(0, 1000)) if k % 2 else 0, int_values=bool(k % 4 >= 2), sc=bool(k % 3 == 0), br_float=bool(k % 7 == 5),
+                 fs_int=bool(k % 2 == 0))
     return dict(fn=[float(f) for f in fn], xi=xi.tolist(), phi=[[[z.real, z.imag] for z in row] for row in phi], amp=[[z.real, z.imag] for z in amp],
-                fs=fs, N=N, br=br, ref=ref, ordmax=ordmax, hc=hc, cplx=cplx)
+                fs=fs, N=N, br=br, ref=ref, ordmax=ordmax, hc=hc, cplx=cplx, req=req, forms=forms)
 
 
 # ------------------------------------------------------------------------------------------------ stage (i'): graded conditioning
